@@ -350,6 +350,16 @@ def gen_program(rng, opts=None):
             else:
                 lit = lit_float(rand_float_text(rng))
             groups.append((lit, gen_weight()))
+        if k > 1 and rng.random() < 0.15:
+            # a label may legitimately repeat within one return statement (hold-out layouts),
+            # also as values that compare equal but are different literals (1 and 1.0)
+            i, j = rng.sample(range(k), 2)
+            src = groups[i][0]
+            if src.kind == "int" and rng.random() < 0.5 and abs(src.value) < 2 ** 40:
+                dup = lit_float(("-" if src.value < 0 else "") + str(abs(src.value)) + ".0")
+            else:
+                dup = src
+            groups[j] = (dup, groups[j][1])
         if all(Fraction(Decimal(w)) == 0 for _, w in groups):
             groups[rng.randrange(k)] = (groups[0][0], "1")
         return ("ret", groups)
